@@ -3,6 +3,9 @@
    expression, and check_loops awaits nothing but its own recursion. *)
 From QT Require Import C04.Spec C04.ParThm Gen.C04Gen.
 
+Lemma enable_reparse_is_atomic : enable_reparse_awaits = 0.
+Proof. reflexivity. Qed.
+
 Lemma check_is_unconditional : check_loops_conditions = 0.
 Proof. reflexivity. Qed.
 
